@@ -240,6 +240,8 @@ def populateStructFields (goNames : Bool) (m : Scope) (data : Val) : Scope :=
   | some (.strct fs) =>
     let m1 := (structFields structDepth fs).foldl (fun acc (kv : Str × Val) => Scope.set acc kv.1 kv.2) m
     if goNames then (structGoNames structDepth fs).foldl (fun acc (kv : Str × Val) => Scope.set acc kv.1 kv.2) m1 else m1
+  -- a map keyed by strings (of whatever map type): its keys are names, as Lookup resolves them on the root data
+  | some (.map mk kvs) => if mk == .nonStrKey then m else kvs.foldl (fun acc (kv : Str × Val) => Scope.set acc kv.1 kv.2) m
   | _ => m
 
 /-- `toMapData` (vue.go): nil → {}, a map[string]any → that map, a struct → StructToMap plus PopulateStructFields on top (when non-empty), anything else → {} -/
